@@ -3,7 +3,7 @@
     r1_* / s1_* are the Gallina translations regenerated from /repo on every run. *)
 From Coq Require Import Reals Floats Bool.
 From Geo Require Import Base.GoPrim Base.F64 Gen.R1 Gen.S1 Proofs.C19_R1.
-From Geo Require Import Gen.R2 Gen.S2Rect Gen.S2Cap Proofs.C19_R2 Proofs.C19_S2Rect Proofs.C19_Expanded Proofs.C19_Cap.
+From Geo Require Import Gen.R2 Gen.S2Rect Gen.S2Cap Proofs.C19_R2 Proofs.C19_S2Rect Proofs.C19_Expanded Proofs.C19_Cap Proofs.C19_S1_Expanded Proofs.C19_S2Rect_Expanded.
 From Geo Require Import Proofs.C19_S1 Proofs.C19_S1_Union Proofs.C19_S1_Inter Proofs.C19_S1_Rel Proofs.C19_S1_Ops.
 Local Open Scope R_scope.
 
@@ -429,3 +429,27 @@ Theorem cap_complement_covers_H : forall eps, H_CAPARITH eps -> forall c p,
    rank (s2_ChordAngleBetweenPoints (s2_Cap_center k) p) <= rank (s2_Cap_radius k) + eps).
 Proof. exact cap_complement_covers_under_H. Qed.
 Print Assumptions cap_complement_covers_H.
+
+(** s1.Interval.Expanded / s2.Rect.expanded --------------------------------
+    under the named hypothesis H_S1EXPAND (the two wrapped endpoints enclose the original arc
+    whenever the 2*dblEpsilon guard did not return the full circle: float expressions and
+    reals only); the theorems add the code's branching and normalisation of -pi. *)
+Theorem s1_expanded_keeps_everything_H : H_S1EXPAND -> forall i m x,
+  valid_s1 i -> nonnan m -> 0 <= rank m -> inrange x ->
+  mem_s1 i x -> mem_s1 (s1_Interval_Expanded i m) x.
+Proof. exact s1_expanded_sound_under_H. Qed.
+Print Assumptions s1_expanded_keeps_everything_H.
+
+Theorem s1_expanded_valid_H : H_S1EXPAND -> forall i m,
+  valid_s1 i -> nonnan m -> 0 <= rank m -> valid_s1 (s1_Interval_Expanded i m).
+Proof. exact s1_expanded_valid_under_H. Qed.
+Print Assumptions s1_expanded_valid_H.
+
+Theorem s2rect_expanded_keeps_everything_H : H_S1EXPAND -> forall r mg lat x,
+  valid_s2rect r -> vlat lat -> inrange x ->
+  nonnan (s2_LatLng_Lat mg) -> 0 <= rank (s2_LatLng_Lat mg) ->
+  nonnan (s2_LatLng_Lng mg) -> 0 <= rank (s2_LatLng_Lng mg) ->
+  wf1 (r1_Interval_Expanded (s2_Rect_Lat r) (s2_LatLng_Lat mg)) ->
+  mem_s2rect r lat x -> mem_s2rect (s2_Rect_expanded r mg) lat x.
+Proof. exact s2rect_expanded_sound_under_H. Qed.
+Print Assumptions s2rect_expanded_keeps_everything_H.
